@@ -514,7 +514,7 @@ def extract_facts(kind: str, op: str, ns: dict, operands: dict) -> dict:
         if kind == "un":
             return facts_unary(x, op)
         if kind == "sub":
-            return facts_subscript(x, eval("_[" + operands["i"] + "]", {"_": _IndexEcho()}))
+            return facts_subscript(x, eval("_[" + operands["i"] + "]", {**ns, "_": _IndexEcho()}))
         return facts_attr(x, operands["name"], operands["haspath"])
 
 
@@ -581,7 +581,7 @@ def _is_path(text: str) -> bool:
     return all(part.isidentifier() and not keyword.iskeyword(part) for part in text.split("."))
 
 
-def _in_scope(kind: str, ns: dict, x: Any, op: str, y: Any = None) -> bool:
+def _in_scope(kind: str, x: Any, op: str, y: Any = None) -> bool:
     """Operations outside the property's universe (stated in the evidence assumptions)."""
     import enum
     import typing
@@ -602,7 +602,7 @@ def _in_scope(kind: str, ns: dict, x: Any, op: str, y: Any = None) -> bool:
     return True
 
 
-def universe(tier: str, rnd: random.Random) -> list[tuple[str, str, dict, list[str], str]]:
+def universe(tier: str) -> list[tuple[str, str, dict, list[str], str]]:
     """[(kind, op, operand texts, function lines with {fn}, expression text)]"""
     quick = tier == "quick"
     ops = OPERANDS_QUICK if quick else OPERANDS_QUICK + OPERANDS_MORE
@@ -649,7 +649,7 @@ def observe_universe(chunk: list[tuple[int, tuple]]) -> list[dict]:
             x = eval(operands["x"], ns0)
             y = eval(operands["y"], ns0) if "y" in operands else (
                 eval("_[" + operands["i"] + "]", {"_": _IndexEcho(), **ns0}) if "i" in operands else None)
-        if not _in_scope(kind, ns0, x, op, y):
+        if not _in_scope(kind, x, op, y):
             continue
         lo = len(lines) + 1
         lines += [ln.replace("{fn}", f"f{tid}") for ln in flines]
@@ -661,11 +661,7 @@ def observe_universe(chunk: list[tuple[int, tuple]]) -> list[dict]:
     mod, pyzs, cpys = _observe_module(src, fns)
     out = []
     for (tid, kind, op, operands, expr), p, c in zip(kept, pyzs, cpys):
-        ns = dict(mod.__dict__)
-        if "i" in operands:
-            case = facts_subscript(eval(operands["x"], ns), eval("_[" + operands["i"] + "]", {"_": _IndexEcho(), **ns}))
-        else:
-            case = extract_facts(kind, op, ns, operands)
+        case = extract_facts(kind, op, mod.__dict__, operands)
         out.append({"tid": tid, "case": case, "cpy": c, "pyz": p, "expr": expr})
     return out
 
@@ -688,6 +684,9 @@ def judge(check: core.Check, obs: list[dict], label: str) -> dict[str, int]:
     tally: dict[str, int] = {}
     for o in obs:
         c = o["case"]
+        if c["kind"] == "attr" and c["a"]["haspath"] and c["a"]["ignored"]:
+            # outside the property's domain (Dispatch.tla InUniverse): TLC gives no property verdict
+            check.cov["excluded_documented_leniency"] = check.cov.get("excluded_documented_leniency", 0) + 1
         key = core.canon({"case": c, "expr": o["expr"]})
         if _nontrivial(c):
             check.nontrivial(core.canon(c))
@@ -736,6 +735,9 @@ def run(check: core.Check) -> None:
         "diagnosed = any diagnostic on the expression's line(s) except lint-only codes (DispatchTrace.tla LintOnly)",
         "pyanalyze's signature layer is not modelled: whether the stub/signature check of a candidate call reports an "
         "error and what it returns statically are recorded facts (asked with allow_call=False) used by ImplOp only",
+        "domain exclusion (documented leniency, not judged): NAME.attr where attr is in the default of the "
+        "`ignored_end_of_reference` option (count, called, call_count, ...) -- such observations get verdict ok and are "
+        "counted in coverage.excluded_documented_leniency; the model arm is still drift-checked",
         "outside the universe: printf-style % on str/bytes (C17), `type[...]`, Enum-class subscripts with non-str keys "
         "(KeyError at runtime, a stub-level type error), typing.Any / sys (KnownAttributeHook), objects with __getattr__, "
         "annotation-only class attributes, comparison operators, unions / non-literal operands",
@@ -777,8 +779,24 @@ def run(check: core.Check) -> None:
     )
     obs = _flat(core.pmap(_obs_syn, _chunks(list(enumerate(cases)), 150), chunk=1))
     tally = judge(check, obs, "tlc-cases-synthetic-classes")
+    # 2b. beyond the quick exhaustive bound (two binary operators, one unary): TLC simulation over all
+    #     13 binary / 3 unary operators
+    num = 500 if quick else 4000
+    sim = core.require_ok(
+        core.run_tlc("DispatchEmit", "Dispatch.sim.cfg", workers=1, simulate=f"num={num}", depth=8,
+                     seed=check.seed + 19, timeout=1200),
+        "Dispatch simulate",
+    )
+    check.add_tlc("simulate:Dispatch.sim.cfg", sim)
+    uniq = {core.canon(c): c for c in core.emitted_json(sim)}
+    check.cov["simulated_cases"] = len(uniq)
+    if len(uniq) < num // 8:
+        raise core.MachineryError(f"simulation produced only {len(uniq)} distinct realisable cases")
+    sobs = _flat(core.pmap(_obs_syn, _chunks(list(enumerate(uniq.values(), start=500_000)), 150), chunk=1))
+    for k, n in judge(check, sobs, "tlc-simulate-synthetic-classes").items():
+        tally[k] = tally.get(k, 0) + n
     # 3. C->S: the literal universe
-    uni = list(enumerate(universe(check.tier, rnd), start=1_000_000))
+    uni = list(enumerate(universe(check.tier), start=1_000_000))
     check.cov["universe_expressions"] = len(uni)
     uobs = _flat(core.pmap(_obs_uni, _chunks(uni, 400), chunk=1))
     check.cov["universe_in_scope"] = len(uobs)
@@ -794,27 +812,42 @@ def run(check: core.Check) -> None:
         arms[arm] = arms.get(arm, 0) + 1
     check.cov["universe_fact_classes"] = len(arms)
     check.cov["universe_arms"] = dict(sorted(arms.items(), key=lambda kv: -kv[1])[:40])
-    for need in ("attr:tslit/val", "attr:tstype/val", "attr:tstype/AttributeError", "attr:dict/val", "attr:none/AttributeError"):
+    for need in ("attr:tstype/val", "attr:dict/val", "attr:none/AttributeError", "attr:none/val"):
         if need not in arms:
             raise core.MachineryError(f"the literal universe never exercised the model arm {need}")
 
 
+def _untag(case: dict) -> dict:
+    """Inverse of _tagged: the TLC case of a recorded synthetic observation."""
+    import copy
+
+    c = copy.deepcopy(case)
+    for m, tag in (("m1", "r1"), ("m2", "r2"), ("m3", "r3")):
+        if c[m]["st"] in ("val", "ni"):
+            c[m]["res"] = tag
+    if c["a"]["rval"]:
+        c["a"]["rval"] = "v"
+    return c
+
+
 def replay(check: core.Check, witness: dict) -> None:
-    """Re-run one witness: re-observe the expression when possible, else re-adjudicate the record."""
-    o = {"tid": 0, "case": witness["case"], "cpy": witness["cpy"], "pyz": witness["pyz"], "expr": witness["expr"]}
-    if witness.get("source") == "literal-universe":
-        for item in universe("thorough", random.Random(0)):
+    """Re-observe the witness through the real code (re-realise the TLC case / re-evaluate the universe
+    expression) and let TLC judge the fresh observation."""
+    if not witness.get("source", "").startswith("tlc"):
+        for item in universe("thorough"):
             if item[4] == witness["expr"]:
                 got = observe_universe([(0, item)])
-                if got:
-                    o = got[0]
-                break
-    judge(check, [o], "replay")
+                if not got:
+                    raise core.MachineryError("witness expression is outside the universe")
+                judge(check, got, "replay")
+                return
+        raise core.MachineryError(f"witness expression {witness['expr']!r} is not in the universe")
+    judge(check, observe_synthetic([(0, _untag(witness["case"]))]), "replay")
 
 
 def selftest_binding(check: core.Check) -> None:
     """Corrupt one recorded field of a good observation and require TLC to flag it."""
-    item = next(u for u in universe("quick", random.Random(0)) if u[4] == '1 + "ab"')
+    item = next(u for u in universe("quick") if u[4] == '(1) + "ab"')
     good = observe_universe([(1, item)])[0]
     v0, _ = core.adjudicate("DispatchTrace", "DispatchTrace.cfg", [good])
     bad1 = {**good, "tid": 2, "pyz": {**good["pyz"], "codes": []}}
